@@ -15,7 +15,7 @@ LEVEL = "exploration"
 POW2_QUOTES = [(64.0, 64.0), (128.0, 128.0), (64.0, 128.0), (32.0, 32.0)]
 W_TARGETS = [(0.5, 0.5), (1.0, 0.0), (0.0, 0.0), (-0.5, 0.75), (1.5, -0.5), (0.25, 0.0), (0.0, -1.0), (0.0, 0.03125)]
 N_TARGETS = [(2.0, -1.0), (0.0, 3.0), (0.0, 0.0), (1.0, 1.0)]
-LOT_DELTAS = [-1.5, -1.0, -0.5, -2.0 ** -10, 2.0 ** -10, 0.5, 1.0, 1.5, 2.75]
+LOT_DELTAS = [-1.5, -1.0, -0.5, -2.0 ** -10, 2.0 ** -10, 0.5, 1.0, 1.5, 2.75, 2.0 ** -30, -2.0 ** -30]
 EPS = 2.0 ** -20
 
 
